@@ -76,6 +76,10 @@ func (c *Config) ParseArgs() error {
 	if *logs {
 		ext := path.Ext(c.Output)
 		c.Log = c.Output[0:len(c.Output)-len(ext)] + ".log"
+		if c.Log == c.Output {
+			// The log is opened (and emptied) first; it must not be the generated code's file.
+			return fmt.Errorf("the log file %v would be the output file itself: give -out a name that does not end in .log", c.Log)
+		}
 	}
 	c.DryRun = *dryRun
 	c.Prints = *prints
